@@ -87,7 +87,7 @@ type ContractFile struct {
 
 var clauseKeywords = map[string]bool{"func": true, "props": true, "requires": true, "ensures": true, "decreases": true,
 	"loop": true, "pure": true, "trusted": true, "maypanic": true, "nosafety": true, "inline": true, "modifies": true,
-	"cover": true, "spec": true, "axiom": true, "lemma": true, "opaque": true, "noframe": true, "readonly": true}
+	"cover": true, "spec": true, "axiom": true, "lemma": true, "opaque": true, "noframe": true, "readonly": true, "opaque_strings": true}
 
 func ParseContractFile(path, pkg string) (*ContractFile, error) {
 	data, err := os.ReadFile(path)
@@ -169,7 +169,7 @@ func ParseContractFile(path, pkg string) (*ContractFile, error) {
 				cur.Loops[ord] = ls
 			}
 			ls.Invariants = append(ls.Invariants, cl)
-		case "pure", "trusted", "maypanic", "nosafety", "inline", "noframe", "readonly":
+		case "pure", "trusted", "maypanic", "nosafety", "inline", "noframe", "readonly", "opaque_strings":
 			if cur == nil {
 				return nil, fail(fmt.Errorf("%s outside func", kw))
 			}
